@@ -141,6 +141,8 @@ func genReflect(out string, root, irefl *pkgFiles) {
 					strMapMissingAbsent = false
 				case len(cc.Body) == 2 && isCommaOkReturn(cc.Body[0]) && isReturnOf(cc.Body[1], "nil"):
 					strMapMissingAbsent = true
+				case strMapAbsentIsNil(cc.Body):
+					strMapMissingAbsent = true
 				default:
 					fail("resolveStep", fmt.Errorf("map[string]string case body not recognised"))
 					ok = false
@@ -163,6 +165,9 @@ func genReflect(out string, root, irefl *pkgFiles) {
 		loopAt, popAt := -1, -1
 		for i, s := range fd.Body.List {
 			if _, isFor := s.(*ast.ForStmt); isFor && loopAt < 0 {
+				loopAt = i
+			}
+			if rs, isRange := s.(*ast.RangeStmt); isRange && loopAt < 0 && strings.HasSuffix(exprString(rs.X), ".stack") {
 				loopAt = i
 			}
 			if containsCall(s, "PopulateStructFields") && popAt < 0 {
@@ -230,6 +235,26 @@ func isReturnOf(s ast.Stmt, what string) bool {
 }
 
 // if v, ok := c[p]; ok { return v }
+// strMapAbsentIsNil: other spellings of "a missing key gives nil": `v, ok := c[k]; if !ok { return nil }; return v`
+func strMapAbsentIsNil(body []ast.Stmt) bool {
+	if len(body) != 3 {
+		return false
+	}
+	as, ok := body[0].(*ast.AssignStmt)
+	if !ok || len(as.Lhs) != 2 || len(as.Rhs) != 1 {
+		return false
+	}
+	if _, isIdx := as.Rhs[0].(*ast.IndexExpr); !isIdx {
+		return false
+	}
+	v, okName := exprString(as.Lhs[0]), exprString(as.Lhs[1])
+	ifs, ok := body[1].(*ast.IfStmt)
+	if !ok || len(ifs.Body.List) != 1 || boolCanon(ifs.Cond) != boolCanonOf("!"+okName) || !isReturnOf(ifs.Body.List[0], "nil") {
+		return false
+	}
+	return isReturnOf(body[2], v)
+}
+
 func isCommaOkReturn(s ast.Stmt) bool {
 	ifs, ok := s.(*ast.IfStmt)
 	if !ok || ifs.Init == nil || ifs.Else != nil || len(ifs.Body.List) != 1 {
@@ -284,37 +309,30 @@ func genEntryFacts(out string, root *pkgFiles) {
 	} else {
 		fail("Vue.render", fmt.Errorf("method not found"))
 	}
-	// 2. template.layout: `_, err := io.Copy(w, buf); return err`
+	// 2. template.layout: `_, err := io.Copy(w, <buffer>); return err` — the error of the one write to the caller's writer is what is returned
 	layoutReturns := false
 	if fd := root.method("template", "layout"); fd != nil {
-		src := nodeText(root, fd)
-		idx := strings.Index(src, "io.Copy(w, buf)")
-		if idx < 0 {
-			fail("template.layout", fmt.Errorf("io.Copy(w, buf) not found"))
-		} else {
-			tail := src[idx:]
-			nl := strings.Index(tail, "\n")
-			next := strings.TrimSpace(strings.SplitN(tail[nl+1:], "\n", 2)[0])
-			head := strings.TrimSpace(src[strings.LastIndex(src[:idx], "\n")+1 : idx])
-			layoutReturns = strings.HasPrefix(head, "_, err :=") && next == "return err"
+		found, returned := writeErrorReturned(fd.Body, func(ce *ast.CallExpr) bool {
+			return exprString(ce.Fun) == "io.Copy" && len(ce.Args) == 2 && exprString(ce.Args[0]) == "w"
+		})
+		if !found {
+			fail("template.layout", fmt.Errorf("io.Copy(w, …) not found"))
 		}
+		layoutReturns = returned
 	} else {
 		fail("template.layout", fmt.Errorf("method not found"))
 	}
-	// 3. RenderReader: `_, err = buf.WriteTo(w); return err`
+	// 3. RenderReader: `_, err = <buffer>.WriteTo(w); return err`
 	readerReturns := false
 	if fd := root.method("template", "RenderReader"); fd != nil {
-		src := nodeText(root, fd)
-		idx := strings.Index(src, "buf.WriteTo(w)")
-		if idx < 0 {
-			fail("template.RenderReader", fmt.Errorf("buf.WriteTo(w) not found"))
-		} else {
-			tail := src[idx:]
-			nl := strings.Index(tail, "\n")
-			next := strings.TrimSpace(strings.SplitN(tail[nl+1:], "\n", 2)[0])
-			head := strings.TrimSpace(src[strings.LastIndex(src[:idx], "\n")+1 : idx])
-			readerReturns = strings.HasPrefix(head, "_, err =") && next == "return err"
+		found, returned := writeErrorReturned(fd.Body, func(ce *ast.CallExpr) bool {
+			sel, ok := ce.Fun.(*ast.SelectorExpr)
+			return ok && sel.Sel.Name == "WriteTo" && len(ce.Args) == 1 && exprString(ce.Args[0]) == "w"
+		})
+		if !found {
+			fail("template.RenderReader", fmt.Errorf("<buffer>.WriteTo(w) not found"))
 		}
+		readerReturns = returned
 	} else {
 		fail("template.RenderReader", fmt.Errorf("method not found"))
 	}
@@ -399,8 +417,175 @@ func genCacheFacts(out string, root *pkgFiles) {
 		}
 		sb.WriteString("def cacheStatFailureIsMiss : Bool := true\n")
 	default:
+		// the hit logic may be spread over helpers (a stat helper, a lookup helper): decide the same fact semantically
+		if miss, ok := cacheHitBySemantics(root, fd); ok {
+			rep.Facts["cache.hitCondition"] = "(by semantics)"
+			sb.WriteString("def cacheStatFailureIsMiss : Bool := " + b2l(miss) + "\n")
+			return
+		}
 		fail("loadCachedWithFrontMatter", fmt.Errorf("hit condition not recognised: %q", cond))
 	}
+}
+
+// cacheHitBySemantics recognises the cache's hit rule when it is not one condition in one function but spread over helpers (a stat
+// helper, a lookup helper, early returns). The full hit condition is C ∧ P, where C guards the return of an entry's (frontMatter, dom) and P
+// is the conjunction of the negated guards of the helper that produced the entry (guards = `if G { return nil[, false] }`), with the
+// helper's parameters replaced by the caller's arguments. It answers (statFailureIsMiss, true) when the full condition implies that the
+// cache map held the key and that the modification time is zero or equal to the entry's; statFailureIsMiss = (full ⇒ fs.Stat succeeded).
+func cacheHitBySemantics(root *pkgFiles, fd *ast.FuncDecl) (bool, bool) {
+	var hitCond ast.Expr
+	var hitInit ast.Stmt
+	ast.Inspect(fd.Body, func(n ast.Node) bool {
+		ifs, ok := n.(*ast.IfStmt)
+		if !ok || hitCond != nil {
+			return true
+		}
+		for _, st := range ifs.Body.List {
+			if rs, ok := st.(*ast.ReturnStmt); ok && len(rs.Results) == 3 && strings.HasSuffix(exprString(rs.Results[0]), ".frontMatter") && strings.HasSuffix(exprString(rs.Results[1]), ".dom") && exprString(rs.Results[2]) == "nil" {
+				hitCond, hitInit = ifs.Cond, ifs.Init
+			}
+		}
+		return true
+	})
+	if hitCond == nil {
+		return false, false
+	}
+	helperOf := func(call ast.Expr) (*ast.FuncDecl, *ast.CallExpr) {
+		ce, ok := call.(*ast.CallExpr)
+		if !ok {
+			return nil, nil
+		}
+		if sel, ok := ce.Fun.(*ast.SelectorExpr); ok {
+			return root.method("Vue", sel.Sel.Name), ce
+		}
+		return nil, nil
+	}
+	lastResult := func(rs *ast.ReturnStmt) string {
+		if len(rs.Results) == 0 {
+			return ""
+		}
+		return exprString(rs.Results[len(rs.Results)-1])
+	}
+	// the stat flag and its polarity
+	statFlag, statGoodWhenTrue := "", true
+	ast.Inspect(fd.Body, func(n ast.Node) bool {
+		as, ok := n.(*ast.AssignStmt)
+		if !ok {
+			return true
+		}
+		if len(as.Lhs) == 1 && len(as.Rhs) == 1 && exprString(as.Rhs[0]) == "true" && strings.Contains(strings.ToLower(exprString(as.Lhs[0])), "fail") {
+			statFlag, statGoodWhenTrue = exprString(as.Lhs[0]), false
+		}
+		if len(as.Lhs) == 2 && len(as.Rhs) == 1 {
+			if h, _ := helperOf(as.Rhs[0]); h != nil && containsCall(h.Body, "fs.Stat") {
+				onErr, atEnd := "", ""
+				ast.Inspect(h.Body, func(m ast.Node) bool {
+					if ifs, ok := m.(*ast.IfStmt); ok && boolCanon(ifs.Cond) == boolCanonOf("err != nil") {
+						for _, st := range ifs.Body.List {
+							if rs, ok := st.(*ast.ReturnStmt); ok {
+								onErr = lastResult(rs)
+							}
+						}
+					}
+					return true
+				})
+				if rs, ok := h.Body.List[len(h.Body.List)-1].(*ast.ReturnStmt); ok {
+					atEnd = lastResult(rs)
+				}
+				if onErr == "false" && atEnd == "true" {
+					statFlag, statGoodWhenTrue = exprString(as.Lhs[1]), true
+				}
+				if onErr == "true" && atEnd == "false" {
+					statFlag, statGoodWhenTrue = exprString(as.Lhs[1]), false
+				}
+			}
+		}
+		return true
+	})
+	if statFlag == "" {
+		return false, false
+	}
+	// the full condition: C, and the negated guards of the helper that yields the entry
+	full := "(" + types.ExprString(hitCond) + ")"
+	rename := map[string]string{}
+	foundVar := ""
+	collectFound := func(body *ast.BlockStmt) {
+		ast.Inspect(body, func(m ast.Node) bool {
+			if as, ok := m.(*ast.AssignStmt); ok && len(as.Lhs) == 2 && len(as.Rhs) == 1 {
+				if ix, ok := as.Rhs[0].(*ast.IndexExpr); ok && strings.HasSuffix(exprString(ix.X), ".templateCache") {
+					foundVar = exprString(as.Lhs[1])
+				}
+			}
+			return true
+		})
+	}
+	collectFound(fd.Body)
+	if as, ok := hitInit.(*ast.AssignStmt); ok && len(as.Rhs) == 1 {
+		if h, ce := helperOf(as.Rhs[0]); h != nil {
+			i := 0
+			if h.Type.Params != nil {
+				for _, f := range h.Type.Params.List {
+					for _, nm := range f.Names {
+						if i < len(ce.Args) {
+							rename[nm.Name] = types.ExprString(ce.Args[i])
+						}
+						i++
+					}
+				}
+			}
+			if foundVar == "" {
+				collectFound(h.Body)
+			}
+			for _, st := range h.Body.List {
+				ifs, ok := st.(*ast.IfStmt)
+				if !ok || len(ifs.Body.List) == 0 {
+					continue
+				}
+				rs, ok := ifs.Body.List[len(ifs.Body.List)-1].(*ast.ReturnStmt)
+				if !ok {
+					continue
+				}
+				if lr := lastResult(rs); lr == "false" || lr == "nil" {
+					full += " && !(" + types.ExprString(ifs.Cond) + ")"
+				}
+			}
+		}
+	}
+	fe, err := parseExprString(full)
+	if err != nil || foundVar == "" {
+		return false, false
+	}
+	role := func(a string) string {
+		switch {
+		case strings.Contains(a, ".IsZero()"):
+			return "Z"
+		case strings.Contains(a, ".Equal("):
+			return "E"
+		}
+		if r, ok := rename[a]; ok {
+			return r
+		}
+		return a
+	}
+	if !implies(fe, "Z || E", role) || !implies(fe, foundVar, role) {
+		return false, false
+	}
+	want := statFlag
+	if !statGoodWhenTrue {
+		want = "!" + statFlag
+	}
+	return implies(fe, want, role), true
+}
+
+func containsIndexOf(n ast.Node, suffix string) bool {
+	found := false
+	ast.Inspect(n, func(m ast.Node) bool {
+		if ix, ok := m.(*ast.IndexExpr); ok && strings.HasSuffix(exprString(ix.X), suffix) {
+			found = true
+		}
+		return true
+	})
+	return found
 }
 
 // rangeSources lists, in order, the X of every statement-level `for k, v := range X { dst[k] = v }` in a function body.
@@ -453,22 +638,35 @@ func genMergeFacts(out string, root *pkgFiles) {
 	// Fill
 	var fillOrder []string
 	if fd := root.method("template", "Fill"); fd != nil {
-		for _, src := range rangeSources(fd.Body) {
-			switch src {
-			case "t.vue.initialData":
+		// what `passed` is called: a local bound to toMapData(<the parameter>), or the call itself as the merge source
+		param := ""
+		if fd.Type.Params != nil && len(fd.Type.Params.List) == 1 && len(fd.Type.Params.List[0].Names) == 1 {
+			param = fd.Type.Params.List[0].Names[0].Name
+		}
+		passedNames := map[string]bool{"toMapData(" + param + ")": true}
+		ast.Inspect(fd.Body, func(n ast.Node) bool {
+			if as, ok := n.(*ast.AssignStmt); ok && len(as.Lhs) == 1 && len(as.Rhs) == 1 && exprString(as.Rhs[0]) == "toMapData("+param+")" {
+				passedNames[exprString(as.Lhs[0])] = true
+			}
+			return true
+		})
+		sawPassed := false
+		for _, src := range mergeSources(root, fd.Body) {
+			switch {
+			case src == "t.vue.initialData":
 				fillOrder = append(fillOrder, ".initialData")
-			case "passedData":
+			case passedNames[strings.ReplaceAll(src, " ", "")] || passedNames[src]:
 				fillOrder = append(fillOrder, ".passed")
-			case "t.frontMatter":
+				sawPassed = true
+			case src == "t.frontMatter":
 				fillOrder = append(fillOrder, ".frontMatter")
 			default:
 				fail("template.Fill", fmt.Errorf("merge loop over unknown source %q", src))
 				okAll = false
 			}
 		}
-		srcText := nodeText(root, fd)
-		if !strings.Contains(srcText, "passedData := toMapData(vars)") {
-			fail("template.Fill", fmt.Errorf("passedData is not toMapData(vars)"))
+		if !sawPassed {
+			fail("template.Fill", fmt.Errorf("the passed data (toMapData of the parameter) is not merged"))
 			okAll = false
 		}
 	} else {
@@ -478,18 +676,60 @@ func genMergeFacts(out string, root *pkgFiles) {
 	// loadConfig: theme.yml first, then the data/ loop
 	var cfgOrder []string
 	if fd := root.fn("loadConfig"); fd != nil {
-		srcText := nodeText(root, fd)
-		ti := strings.Index(srcText, `loadYAML("theme.yml")`)
-		di := strings.Index(srcText, `loadYAML("data/" + name)`)
-		if ti < 0 || di < 0 {
-			fail("loadConfig", fmt.Errorf("loadYAML calls not found"))
+		// the two loads are calls (of a closure or a function) whose arguments mention "theme.yml" resp. "data/": their order in the body
+		ti, di := token.NoPos, token.NoPos
+		ast.Inspect(fd.Body, func(n ast.Node) bool {
+			ce, ok := n.(*ast.CallExpr)
+			if !ok {
+				return true
+			}
+			if _, isSel := ce.Fun.(*ast.SelectorExpr); isSel {
+				return true // fs.ReadDir(…, "data") and the like are not loads
+			}
+			for _, a := range ce.Args {
+				t := exprString(a)
+				if strings.Contains(t, `"theme.yml"`) && ti == token.NoPos {
+					ti = ce.Pos()
+				}
+				if strings.Contains(t, `"data/"`) && di == token.NoPos {
+					di = ce.Pos()
+				}
+			}
+			return true
+		})
+		if ti == token.NoPos || di == token.NoPos {
+			fail("loadConfig", fmt.Errorf("the loads of theme.yml and data/* not found"))
 			okAll = false
 		} else if ti < di {
 			cfgOrder = []string{".theme", ".dataYml"}
 		} else {
 			cfgOrder = []string{".dataYml", ".theme"}
 		}
-		if !strings.Contains(srcText, "vue.initialData[k] = v") {
+		merges := false
+		for _, b := range bodiesReachable(root, fd, 2) {
+			for _, src := range mergeSources(root, b) {
+				_ = src
+			}
+			ast.Inspect(b, func(n ast.Node) bool {
+				switch x := n.(type) {
+				case *ast.AssignStmt:
+					if len(x.Lhs) == 1 {
+						if ix, ok := x.Lhs[0].(*ast.IndexExpr); ok && strings.HasSuffix(exprString(ix.X), ".initialData") {
+							merges = true
+						}
+					}
+				case *ast.CallExpr:
+					// … or through a copy helper whose destination is the initial data
+					if id, ok := x.Fun.(*ast.Ident); ok {
+						if dst, _, ok := isCopyHelper(root.fn(id.Name)); ok && dst < len(x.Args) && strings.HasSuffix(exprString(x.Args[dst]), ".initialData") {
+							merges = true
+						}
+					}
+				}
+				return true
+			})
+		}
+		if !merges {
 			fail("loadConfig", fmt.Errorf("merge into initialData not found"))
 			okAll = false
 		}
@@ -500,7 +740,7 @@ func genMergeFacts(out string, root *pkgFiles) {
 	// Vue.Render: mergeFrontMatter(toMapData(data), frontMatter) and the loops inside mergeFrontMatter
 	var renderOrder []string
 	if fd := root.fn("mergeFrontMatter"); fd != nil {
-		for _, src := range rangeSources(fd.Body) {
+		for _, src := range mergeSources(root, fd.Body) {
 			switch src {
 			case "data":
 				renderOrder = append(renderOrder, ".callerData")
@@ -511,7 +751,18 @@ func genMergeFacts(out string, root *pkgFiles) {
 				okAll = false
 			}
 		}
-		if rfd := root.method("Vue", "Render"); rfd == nil || !strings.Contains(nodeText(root, rfd), "mergeFrontMatter(toMapData(data), frontMatter)") {
+		callFound := false
+		if rfd := root.method("Vue", "Render"); rfd != nil {
+			for _, b := range bodiesReachable(root, rfd, 2) {
+				ast.Inspect(b, func(n ast.Node) bool {
+					if ce, ok := n.(*ast.CallExpr); ok && exprString(ce.Fun) == "mergeFrontMatter" && len(ce.Args) == 2 && strings.HasPrefix(exprString(ce.Args[0]), "toMapData(") {
+						callFound = true
+					}
+					return true
+				})
+			}
+		}
+		if !callFound {
 			fail("Vue.Render", fmt.Errorf("call mergeFrontMatter(toMapData(data), frontMatter) not found"))
 			okAll = false
 		}
@@ -619,62 +870,124 @@ func genParseFacts(repo, out string, root *pkgFiles) {
 	fmt.Fprintf(&sb, "/-- parameters of ExprEvaluator.getProgram -/\ndef programParams : List String := %s\n", list(params))
 	fmt.Fprintf(&sb, "/-- the key of every store into the compiled-program cache -/\ndef programCacheKeys : List String := %s\n", list(keys))
 	fmt.Fprintf(&sb, "/-- the identifiers the expr.Compile call reads (functions of the expr package aside) -/\ndef programCompileReads : List String := %s\n", list(reads))
-	// Stack.resolveStep: the conjuncts of every `if` that encloses the reflect Index call (an unguarded Index panics)
+	// Stack.resolveStep (or a helper it delegates to): the reflect Index call is guarded from both sides and by the kind of the value.
+	// Guards = the conjuncts of every enclosing `if`, and the case lists of enclosing switches; the three facts are read off by role.
 	var guards []string
+	lower, upper, kind := false, false, false
 	if fd := root.method("Stack", "resolveStep"); fd != nil {
-		var walk func(n ast.Node, conds []string)
-		conj := func(e ast.Expr) []string {
-			var out []string
+		conj := func(e ast.Expr) []ast.Expr {
+			var out []ast.Expr
 			var split func(e ast.Expr)
 			split = func(e ast.Expr) {
+				if pe, ok := e.(*ast.ParenExpr); ok {
+					split(pe.X)
+					return
+				}
 				if be, ok := e.(*ast.BinaryExpr); ok && be.Op == token.LAND {
 					split(be.X)
 					split(be.Y)
 					return
 				}
-				if pe, ok := e.(*ast.ParenExpr); ok {
-					if be, ok := pe.X.(*ast.BinaryExpr); ok && be.Op == token.LAND {
-						split(be)
-						return
-					}
-				}
-				out = append(out, types.ExprString(e))
+				out = append(out, e)
 			}
 			split(e)
 			return out
 		}
-		walk = func(n ast.Node, conds []string) {
-			switch x := n.(type) {
-			case *ast.IfStmt:
-				inner := append(append([]string{}, conds...), conj(x.Cond)...)
-				walk(x.Body, inner)
-				if x.Else != nil {
-					walk(x.Else, conds)
-				}
-				return
-			case *ast.BlockStmt:
-				for _, st := range x.List {
-					walk(st, conds)
-				}
-				return
-			case nil:
-				return
-			}
-			ast.Inspect(n, func(m ast.Node) bool {
-				if ce, ok := m.(*ast.CallExpr); ok {
-					if sel, ok := ce.Fun.(*ast.SelectorExpr); ok && sel.Sel.Name == "Index" && len(ce.Args) == 1 {
-						guards = append(guards, conds...)
+		for _, body := range bodiesReachable(root, fd, 2) {
+			var walk func(n ast.Node, conds []ast.Expr, cases []string)
+			walk = func(n ast.Node, conds []ast.Expr, cases []string) {
+				switch x := n.(type) {
+				case *ast.IfStmt:
+					inner := append(append([]ast.Expr{}, conds...), conj(x.Cond)...)
+					walk(x.Body, inner, cases)
+					if x.Else != nil {
+						walk(x.Else, conds, cases)
 					}
+					return
+				case *ast.BlockStmt:
+					// a guard `if G { …; return }` makes !G hold for what follows it in the block
+					cur := conds
+					for _, st := range x.List {
+						walk(st, cur, cases)
+						if ifs, ok := st.(*ast.IfStmt); ok && ifs.Else == nil && len(ifs.Body.List) > 0 {
+							if _, isRet := ifs.Body.List[len(ifs.Body.List)-1].(*ast.ReturnStmt); isRet {
+								var neg func(e ast.Expr) []ast.Expr
+								neg = func(e ast.Expr) []ast.Expr {
+									if pe, ok := e.(*ast.ParenExpr); ok {
+										return neg(pe.X)
+									}
+									if be, ok := e.(*ast.BinaryExpr); ok && be.Op == token.LOR {
+										return append(neg(be.X), neg(be.Y)...)
+									}
+									return []ast.Expr{&ast.UnaryExpr{Op: token.NOT, X: &ast.ParenExpr{X: e}}}
+								}
+								cur = append(append([]ast.Expr{}, cur...), neg(ifs.Cond)...)
+							}
+						}
+					}
+					return
+				case *ast.SwitchStmt:
+					tag := ""
+					if x.Tag != nil {
+						tag = types.ExprString(x.Tag)
+					}
+					for _, c := range x.Body.List {
+						if cc, ok := c.(*ast.CaseClause); ok {
+							var lst []string
+							for _, e := range cc.List {
+								lst = append(lst, tag+"=="+types.ExprString(e))
+							}
+							for _, st := range cc.Body {
+								walk(st, conds, append(append([]string{}, cases...), strings.Join(lst, "||")))
+							}
+						}
+					}
+					return
+				case nil:
+					return
 				}
-				return true
-			})
+				ast.Inspect(n, func(m ast.Node) bool {
+					ce, ok := m.(*ast.CallExpr)
+					if !ok {
+						return true
+					}
+					sel, ok := ce.Fun.(*ast.SelectorExpr)
+					if !ok || sel.Sel.Name != "Index" || len(ce.Args) != 1 {
+						return true
+					}
+					idx := types.ExprString(ce.Args[0])
+					recv := types.ExprString(sel.X)
+					for _, c := range conds {
+						guards = append(guards, types.ExprString(c))
+						a, neg := atomOf(c)
+						if a == idx+"<0" && neg {
+							lower = true
+						}
+						if a == idx+"<"+recv+".Len()" && !neg {
+							upper = true
+						}
+						if t := types.ExprString(c); strings.Contains(t, "reflect.Slice") && strings.Contains(t, "reflect.Array") {
+							kind = true
+						}
+					}
+					for _, c := range cases {
+						guards = append(guards, c)
+						if strings.Contains(c, "reflect.Slice") && strings.Contains(c, "reflect.Array") {
+							kind = true
+						}
+					}
+					return true
+				})
+			}
+			walk(body, nil, nil)
 		}
-		walk(fd.Body, nil)
 	} else {
 		fail("parse", fmt.Errorf("Stack.resolveStep not found"))
 	}
-	fmt.Fprintf(&sb, "/-- the conditions under which Stack.resolveStep calls reflect's Index -/\ndef indexGuards : List String := %s\n", list(guards))
+	fmt.Fprintf(&sb, "/-- the conditions under which Stack.resolveStep calls reflect's Index (as written) -/\ndef indexGuards : List String := %s\n", list(guards))
+	fmt.Fprintf(&sb, "/-- … among them: the index is not negative, it is below the length, the value is a slice or an array -/\ndef indexLowerBound : Bool := %s\ndef indexUpperBound : Bool := %s\ndef indexKindChecked : Bool := %s\n", b2l(lower), b2l(upper), b2l(kind))
 	rep.Facts["indexGuards"] = list(guards)
+	rep.Facts["indexBounds"] = fmt.Sprintf("lower=%v upper=%v kind=%v", lower, upper, kind)
 	rep.Facts["programParams"] = list(params)
 	rep.Facts["programCacheKeys"] = list(keys)
 	rep.Facts["programCompileReads"] = list(reads)
@@ -720,4 +1033,46 @@ func genFmtLists(repo, out string) {
 		fmt.Fprintf(&sb, "/-- the atoms listed in formatter.%s -/\ndef %s : List String := [%s]\n", it[0], it[1], strings.Join(q, ", "))
 		rep.Facts[it[1]] = strings.Join(names, ",")
 	}
+}
+
+// writeErrorReturned looks for the statement that performs the matching write call and says whether its error is what the function then
+// returns: `_, err (:=|=) CALL` directly followed by `return err`, or `if _, err := CALL; err != nil { return err }`, or `return CALL-error`.
+func writeErrorReturned(body *ast.BlockStmt, match func(*ast.CallExpr) bool) (found, returned bool) {
+	var walk func(list []ast.Stmt)
+	walk = func(list []ast.Stmt) {
+		for i, st := range list {
+			switch x := st.(type) {
+			case *ast.AssignStmt:
+				if len(x.Rhs) == 1 && len(x.Lhs) == 2 {
+					if ce, ok := x.Rhs[0].(*ast.CallExpr); ok && match(ce) {
+						found = true
+						errName := exprString(x.Lhs[1])
+						if i+1 < len(list) && isReturnOf(list[i+1], errName) {
+							returned = true
+						}
+					}
+				}
+			case *ast.IfStmt:
+				if as, ok := x.Init.(*ast.AssignStmt); ok && len(as.Rhs) == 1 && len(as.Lhs) == 2 {
+					if ce, ok := as.Rhs[0].(*ast.CallExpr); ok && match(ce) {
+						found = true
+						errName := exprString(as.Lhs[1])
+						if boolCanon(x.Cond) == boolCanonOf(errName+" != nil") && len(x.Body.List) == 1 && isReturnOf(x.Body.List[0], errName) {
+							returned = true
+						}
+					}
+				}
+				walk(x.Body.List)
+				if eb, ok := x.Else.(*ast.BlockStmt); ok {
+					walk(eb.List)
+				}
+			case *ast.ForStmt:
+				walk(x.Body.List)
+			case *ast.BlockStmt:
+				walk(x.List)
+			}
+		}
+	}
+	walk(body.List)
+	return
 }
